@@ -16,16 +16,23 @@ TRUST = ("Lean 4.33 kernel; axioms at most propext/Classical.choice/Quot.sound (
          "net effect 'fold p receives its elements in processing order, cut by the computed batch sizes') tied to the C++ by the differential "
          "correspondence only; ")
 MANIFEST = dict(
-  text=("Theorems (Props/C12.lean) for all partition-size vectors, maximum batch sizes, fold counts and index vectors: the machine-translated "
-        "batchPartitioning returns the prefix sums of the per-partition batch counts as fold starts and, per partition, batch sizes that sum to "
-        "the partition size; folds built from such starts have pairwise disjoint validation batch sets that cover all batches, and every training "
-        "set is exactly the complement of its validation set; the equal-size fold sizes floor(n/k)(+1) sum to n and differ by at most one; round-robin "
-        "dealing gives per-class counts that differ by at most one between folds. The model is tied to createCVIndexed / createCVFullyIndexed / "
-        "createCVIID / createCVSameSize / createCVSameSizeBalanced / createCVBatch by an exact correspondence (RNG draws observed and checked "
-        "against the model's relation) on unsigned / RealVector / CompressedRealVector inputs under ASan/UBSan, plus an independent in-harness oracle "
-        "for disjointness, cover, complement, pairing, size/class balance, requested fold and shape."),
-  note=TRUST + "element-level statements (every element exactly once with its label, requested fold) are proved for the model's regroup function only as "
-       "far as listed in Props/C12.lean and are otherwise checked by the oracle on the real code; the RNG itself is not modelled.",
+  text=("Theorems (Props/C12.lean, 14 obligations, re-proved on every run against the regenerated batch arithmetic) for all partition-size vectors, "
+        "maximum batch sizes and fold counts: the machine-translated batchPartitioning returns the prefix sums of the per-partition batch counts as "
+        "fold starts, the concatenated per-partition batch sizes (each block summing to its partition size) and the total batch count -- "
+        "unconditionally when every partition is non-empty, and for empty folds/classes under the explicit hypothesis that the source returns no "
+        "batch for zero elements (false on the unrepaired source: finding F1); CVFolds built from such starts have validation batch sets that "
+        "are consecutive ranges, pairwise disjoint and covering all batches; training indices are exactly the complement (membership, no "
+        "duplicates, validation ++ training is a permutation of all batch indices); equal-size fold sizes floor(n/k)(+1) are defined for k>0, "
+        "sum to n and differ by at most one; the reorganised dataset keeps its shapes (model of the repaired code, finding F11). The model is tied "
+        "to createCVIndexed / createCVFullyIndexed / createCVIID / createCVSameSize / createCVSameSizeBalanced / createCVBatch by an exact "
+        "correspondence in which the RNG draws of the real code are observed and checked against the model's relation (permutation / class-wise "
+        "dealing order / fold draw), on unsigned / RealVector / CompressedRealVector inputs under ASan/UBSan, thorough tier exhaustive over "
+        "(n, k, batch size) for n <= 24, plus an independent in-harness oracle for disjointness, cover, complement, pairing, fold-size and class "
+        "balance, requested fold, recreation indices and shape."),
+  note=TRUST + "checked by correspondence + oracle only (no theorem yet): element-level partition of the folds ('every element exactly once with its "
+       "label', requested fold) for the model's regroup function, per-class balance of the round-robin dealing, and that the dealing loop fills every "
+       "batch exactly (the model describes the loop by its net effect); the RNG itself is not modelled. Findings F1, F11, F12 "
+       "(findings_proposed/C12.md) make the check print VIOLATION on the unrepaired tree.",
   technique="Lean 4 proofs over the regenerated batch arithmetic and the fold index sets + differential correspondence with observed RNG draws (ASan/UBSan)",
   design="§6 C12")
 
@@ -133,10 +140,10 @@ def run(ctx):
     ctx.cov["distinct_nontrivial"] = len({c[0] for c in cases if nontrivial(c[0])})
     ctx.sample({"ops": [c[0] for c in cases[len(cases) // 2: len(cases) // 2 + 4]]})
     feed = os.path.join(core.VERIF, "tools", "obsfeed.py")
-    for ty, shape in TYPES:
+    for ty, shape in dsgen.types(TYPES, 'VERIF_C12_TYPES'):
         hcmd = [exe, ty]
         dcmd = [sys.executable, feed, RNG_OPS, exe, ty, "--", drv, *shape]
-        core.correspond(ctx, f"K-C12[{ty}]", cases, hcmd, dcmd, classify, keep_prefix=0)
+        core.correspond(ctx, f"K-C12[{ty}]", cases, hcmd, dcmd, classify, keep_prefix=0, env=dsgen.ASAN_ENV)
 
 
 def classify(ops, res):
